@@ -249,6 +249,12 @@ class WorldT16 : public World
                                    + "): " + eo.error);
                     return;
                 }
+                if (!eo.completed && eo.budget_exhausted && history_made_progress(s.history()))
+                {
+                    // cost cap reached while tracks were still moving: inconclusive
+                    rr.count("skipped_step_budget_exhausted");
+                    return;
+                }
                 if (!eo.completed)
                 {
                     rr.violate("C16",
